@@ -294,3 +294,83 @@ func CheckC06(e *fw.Env, l *Lab) {
 	}
 	_ = sdkmath.NewInt
 }
+
+// SwapLedgerStep runs one VALID transfer with a random action order over {fee, swap} through the
+// given alternative stack on ctx (state accumulates) and returns what the model says was received
+// and forwarded. It is used by C12/C13 to grow ledgers with denomination-changing transfers.
+type SwapStep struct {
+	OK        bool
+	Pair      world.ChannelPair
+	SrcDenom  string
+	SrcAmount *big.Int
+	DstDenom  string
+	DstAmount *big.Int
+	Route     spec.Route
+	Outcome   string
+	Memo      string
+}
+
+func SwapLedgerStep(e *fw.Env, l *Lab, st *altstack.Stack, sw *swapController, ctx sdkCtx) SwapStep {
+	w := l.W
+	orders := [][]string{{"swap"}, {"fee", "swap"}, {"swap", "fee"}, {}, {"fee"}}
+	order := orders[e.R.Intn(len(orders))]
+	rates := [][2]int64{{1, 1}, {1, 2}, {2, 1}, {3, 7}}
+	rate := rates[e.R.Intn(len(rates))]
+	sw.Num, sw.Den, sw.Seen = rate[0], rate[1], nil
+	src := []string{world.USDC, world.USDN}[e.R.Intn(2)]
+	a := big.NewInt(int64(1000 + e.R.Intn(1_000_000)))
+	amt, denom := new(big.Int).Set(a), src
+	var fees [][]spec.Fee
+	for _, act := range order {
+		switch act {
+		case "fee":
+			f := []spec.Fee{{Recipient: w.K("fee1").String(), IsBPS: true, BPS: uint64(1 + e.R.Intn(300))}}
+			fees = append(fees, f)
+			fr := model.Fees(amt, f)
+			amt = fr.Forward
+		case "swap":
+			out := new(big.Int).Mul(amt, big.NewInt(rate[0]))
+			out.Quo(out, big.NewInt(rate[1]))
+			amt, denom = out, otherDenom(denom)
+		}
+	}
+	rt := spec.Route{Kind: "internal", To: w.K([]string{"rcpt2", "rcpt3"}[e.R.Intn(2)]).String()}
+	if e.R.Intn(3) == 0 {
+		tok := w.Hyp.TokenUSDC.Bytes()
+		if denom == world.USDN {
+			tok = w.Hyp.TokenUSDN.Bytes()
+		}
+		zero := "0"
+		mint := make([]byte, 32)
+		mint[31] = 7
+		rt = spec.Route{Kind: "hyp", Domain: []uint32{1, 10}[e.R.Intn(2)], TokenID: tok, Recipient: mint, GasLimit: &zero, MaxFee: &spec.Coin{Denom: world.USDN, Amount: "0"}}
+	}
+	t := l.NewTransfer(e.R, src, a, nil)
+	t.Memo = actionsMemo(order, fees, rt)
+	st.Rec.Reset(nil)
+	o := run.Do(w, ctx, t, run.Mode{Kind: "C", Mod: st.Module})
+	e.Res.Eval()
+	MonPanic(e.Res, o)
+	MonC01(e.Res, o)
+	return SwapStep{OK: o.Success(), Pair: t.Pair, SrcDenom: src, SrcAmount: a, DstDenom: denom, DstAmount: amt, Route: rt, Outcome: o.Res.String(), Memo: t.Memo}
+}
+
+// RecordSwap folds a swap step into the shadow ledger (one entry when the denomination is
+// unchanged, two otherwise).
+func (s *Shadow) RecordSwap(st SwapStep) {
+	ck := fmt.Sprintf("1|%s|%d|%s", st.Pair.A, st.Route.ProtocolNum(), st.Route.Counterparty())
+	s.Count[ck]++
+	if st.SrcDenom == st.DstDenom {
+		k := ck + "|" + st.SrcDenom
+		addTo(s.In, k, st.SrcAmount)
+		addTo(s.Out, k, st.DstAmount)
+		addTo(s.Fees, k, new(big.Int).Sub(st.SrcAmount, st.DstAmount))
+		return
+	}
+	k1, k2 := ck+"|"+st.SrcDenom, ck+"|"+st.DstDenom
+	addTo(s.In, k1, st.SrcAmount)
+	addTo(s.Out, k1, new(big.Int))
+	addTo(s.In, k2, new(big.Int))
+	addTo(s.Out, k2, st.DstAmount)
+	s.Mixed[k1], s.Mixed[k2] = true, true
+}
